@@ -12,6 +12,18 @@ context, flags and hooks never change.
 -/
 namespace Lm.Core
 
+/-- the documented edges of the module life cycle (docs/concepts/mod.md), plus "no change"; IDLE → STOPPED exists only
+as the first half of a deregistration (`stop()` runs — with the stop hook — before the module becomes a ZOMBIE) -/
+def Trans.ok (t : Trans) : Bool :=
+  t.src == t.dst ||
+  match t.src, t.dst with
+  | .idle, .running | .running, .paused | .paused, .running | .running, .stopped | .paused, .stopped
+  | .stopped, .running => true
+  | .zombie, _ => false         -- final
+  | _, .zombie => true          -- deregistration, from any state
+  | .idle, .stopped => t.out
+  | _, _ => false
+
 def runCount (l : List Sig) (id : Nat) : Nat := l.countP (fun g => g.state == .running && g.ctxId == id)
 
 structure Inv (s : St) : Prop where
@@ -20,6 +32,7 @@ structure Inv (s : St) : Prop where
   names : ∀ (m n : Nat) (g h : Sig), s.sigs[m]? = some g → s.sigs[n]? = some h → g.inCtx = true → h.inCtx = true →
     g.name = h.name → m = n
   fresh : (∀ (m : Nat) (g : Sig), s.sigs[m]? = some g → g.ctxId < s.nextCtx) ∧ (∀ c, s.ctx = some c → c.id < s.nextCtx)
+  trans : ∀ t ∈ s.trans, t.ok = true
 
 def Mono (a s : St) : Prop :=
   ∀ (m : Nat) (g : Sig), a.sigs[m]? = some g → ∃ g' : Sig, s.sigs[m]? = some g' ∧ (g.inCtx = false → g'.inCtx = false) ∧
@@ -35,9 +48,10 @@ theorem Mono.trans {a b c : St} (h1 : Mono a b) (h2 : Mono b c) : Mono a c := by
   exact ⟨g2, e2, fun h => i2 (i1 h), fun h => z2 (z1 h), by rw [n2, n1], by rw [c2, c1], by rw [k2, k1], by rw [f2, f1],
     by rw [s2, s1]⟩
 
-theorem Inv.congr {s s' : St} (h1 : s'.sigs = s.sigs) (h2 : s'.ctx = s.ctx) (h3 : s'.nextCtx = s.nextCtx) (h : Inv s) : Inv s' :=
+theorem Inv.congr {s s' : St} (h1 : s'.sigs = s.sigs) (h2 : s'.ctx = s.ctx) (h3 : s'.nextCtx = s.nextCtx) (h : Inv s)
+    (h4 : s'.trans = s.trans := by rfl) : Inv s' :=
   ⟨fun c hc => by rw [h1]; exact h.run c (by rw [← h2]; exact hc), by rw [h1]; exact h.out, by rw [h1]; exact h.names,
-   by rw [h1, h2, h3]; exact h.fresh⟩
+   by rw [h1, h2, h3]; exact h.fresh, by rw [h4]; exact h.trans⟩
 
 theorem Mono.congr_right {a s s' : St} (h1 : s'.sigs = s.sigs) (h : Mono a s) : Mono a s' := by
   unfold Mono; rw [h1]; exact h
@@ -56,7 +70,7 @@ theorem frameable : Frameable Inv Mono where
 
 theorem inv_init : Inv {} := by
   refine ⟨fun c h => by simp at h, fun m g h => by simp [St.sigs] at h, fun m n g h hg => by simp [St.sigs] at hg,
-    fun m g h => by simp [St.sigs] at h, fun c h => by simp at h⟩
+    ⟨fun m g h => by simp [St.sigs] at h, fun c h => by simp at h⟩, fun t h => by simp at h⟩
 
 /-! ## Effect of the non-quiet primitives on the view -/
 
@@ -95,6 +109,24 @@ theorem updCtxId_ctx (s : St) (id f) :
 @[simp] theorem setCurrOf_sigs (s : St) (m x) : (setCurrOf m x s).sigs = s.sigs := by
   unfold setCurrOf; simp
 
+@[simp] theorem updCtxId_trans (s : St) (id f) : (s.updCtxId id f).trans = s.trans := by
+  unfold St.updCtxId; split
+  · split <;> rfl
+  · rfl
+
+@[simp] theorem setCurrOf_trans (s : St) (m x) : (setCurrOf m x s).trans = s.trans := by
+  unfold setCurrOf; simp
+
+theorem setState_trans (s : St) (m : ModId) (x : MState) (md : Mod) (h : s.mods[m]? = some md) :
+    (setState s m x).trans = s.trans ++ [{ m := m, src := md.state, dst := x, out := !md.inCtx }] := by
+  unfold setState; simp [h]
+
+theorem mod_of_sig (s : St) (m : ModId) (g : Sig) (h : s.sigs[m]? = some g) : ∃ md : Mod, s.mods[m]? = some md ∧ md.sig = g := by
+  rw [sigs_getElem?] at h
+  cases hm : s.mods[m]? with
+  | none => simp [hm] at h
+  | some md => simp [hm] at h; exact ⟨md, rfl, h⟩
+
 /-- changing only `curr_mod` of some context object keeps the invariant -/
 theorem Inv.setCurrOf {s : St} (m x) (h : Inv s) : Inv (setCurrOf m x s) := by
   have hfresh : (∀ (k : Nat) (g : Sig), (Lm.Core.setCurrOf m x s).sigs[k]? = some g → g.ctxId < (Lm.Core.setCurrOf m x s).nextCtx) ∧
@@ -113,7 +145,7 @@ theorem Inv.setCurrOf {s : St} (m x) (h : Inv s) : Inv (setCurrOf m x s) := by
         subst hc; exact h.fresh.2 c0 hcx
       · simp only [hid, Bool.false_eq_true, if_false, Option.some.injEq] at hc
         subst hc; exact h.fresh.2 c0 hcx
-  refine ⟨fun c hc => ?_, by simpa using h.out, by simpa using h.names, hfresh⟩
+  refine ⟨fun c hc => ?_, by simpa using h.out, by simpa using h.names, hfresh, by rw [setCurrOf_trans]; exact h.trans⟩
   simp only [setCurrOf_sigs]
   unfold Lm.Core.setCurrOf at hc
   rw [updCtxId_ctx] at hc
@@ -166,10 +198,11 @@ theorem inv_set (s s' : St) (m : ModId) (g g' : Sig) (hI : Inv s) (hg : s.sigs[m
     (hs : s'.sigs = s.sigs.set m g') (hname : g'.name = g.name) (hin : g'.inCtx = true → g.inCtx = true)
     (hout : g'.inCtx = false → g'.state = .stopped ∨ g'.state = .zombie)
     (hrun : ∀ c, s'.ctx = some c → c.running = runCount (s.sigs.set m g') c.id)
-    (hcid : g'.ctxId = g.ctxId) (hnext : s'.nextCtx = s.nextCtx) (hctxid : ∀ c, s'.ctx = some c → ∃ c0, s.ctx = some c0 ∧ c0.id = c.id) :
+    (hcid : g'.ctxId = g.ctxId) (hnext : s'.nextCtx = s.nextCtx) (hctxid : ∀ c, s'.ctx = some c → ∃ c0, s.ctx = some c0 ∧ c0.id = c.id)
+    (htr : ∀ t ∈ s'.trans, t.ok = true) :
     Inv s' := by
   have hlt : m < s.sigs.length := (List.getElem?_eq_some_iff.mp hg).1
-  refine ⟨fun c hc => by rw [hs]; exact hrun c hc, ?_, ?_, ?_⟩
+  refine ⟨fun c hc => by rw [hs]; exact hrun c hc, ?_, ?_, ?_, htr⟩
   rotate_left 2
   · rw [hs, hnext]
     refine ⟨fun k g1 hk => ?_, fun c hc => ?_⟩
@@ -248,12 +281,64 @@ theorem stopStep_nextCtx (s : St) (m : ModId) (x : MState) (leave : Bool) : (sto
   unfold stopStep
   cases leave <;> by_cases hr : stateIs s m .running = true <;> simp [hr]
 
+theorem trans_ok_append {l : List Trans} {t : Trans} (h : ∀ x ∈ l, x.ok = true) (ht : t.ok = true) : ∀ x ∈ l ++ [t], x.ok = true := by
+  intro x hx
+  rcases List.mem_append.mp hx with h1 | h1
+  · exact h x h1
+  · simp at h1; subst h1; exact ht
+
+@[simp] theorem updCtxId_mods (s : St) (id f) : (s.updCtxId id f).mods = s.mods := by
+  unfold St.updCtxId; split
+  · split <;> rfl
+  · rfl
+
+theorem stopStep_trans (s : St) (m : ModId) (x : MState) (leave : Bool) (md : Mod) (h : s.mods[m]? = some md) :
+    (stopStep s m x leave).trans = s.trans ++ [{ m := m, src := md.state, dst := x, out := leave || !md.inCtx }] := by
+  have hlt : m < s.mods.length := (List.getElem?_eq_some_iff.mp h).1
+  have hget : s.mods[m] = md := (List.getElem?_eq_some_iff.mp h).2
+  unfold stopStep
+  cases leave with
+  | false =>
+    by_cases hr : stateIs s m .running = true
+    · simp only [hr, if_true, Bool.false_eq_true, if_false]
+      rw [setState_trans _ m x md (by simpa using h)]; simp
+    · simp only [hr, Bool.false_eq_true, if_false]
+      rw [setState_trans _ m x md h]; simp
+  | true =>
+    simp only [if_true]
+    by_cases hr : stateIs s m .running = true
+    · simp only [hr, if_true]
+      rw [setState_trans _ m x { md with inCtx := false } (by simp [St.updMod, h, hlt, hget])]
+      simp [St.updMod, h]
+    · simp only [hr, Bool.false_eq_true, if_false]
+      rw [setState_trans _ m x { md with inCtx := false } (by simp [St.updMod, h, hlt, hget])]
+      simp [St.updMod, h]
+
 /-- the module leaves RUNNING/… for STOPPED or PAUSED (and possibly the table), its context's counter follows -/
 theorem inv_stop (s : St) (m : ModId) (g : Sig) (x : MState) (leave : Bool) (hI : Inv s) (hg : s.sigs[m]? = some g)
-    (hx : x = .stopped ∨ (x = .paused ∧ g.inCtx = true ∧ leave = false)) : Inv (stopStep s m x leave) := by
+    (hx : x = .stopped ∨ (x = .paused ∧ g.inCtx = true ∧ leave = false))
+    (hedge : g.state ≠ .zombie ∧ (x = .paused → g.state = .running) ∧
+      (x = .stopped → leave = true ∨ g.state = .running ∨ g.state = .paused ∨ g.state = .stopped)) :
+    Inv (stopStep s m x leave) := by
   have hxr : x ≠ .running := by rcases hx with h | ⟨h, _⟩ <;> (rw [h]; decide)
+  have htr : ∀ t ∈ (stopStep s m x leave).trans, t.ok = true := by
+    obtain ⟨md, hmd, hsg⟩ := mod_of_sig s m g hg
+    rw [stopStep_trans s m x leave md hmd]
+    refine trans_ok_append hI.trans ?_
+    have hst : md.state = g.state := by rw [← hsg]; rfl
+    obtain ⟨hz, hp, hs⟩ := hedge
+    rcases hx with hx | ⟨hx, _, _⟩
+    · subst hx
+      rcases hs rfl with h | h | h | h
+      · subst h
+        cases hmst : md.state <;> simp [Trans.ok, hmst] <;> (rw [hst] at hmst; exact absurd hmst hz)
+      · simp [Trans.ok, hst, h]
+      · simp [Trans.ok, hst, h]
+      · simp [Trans.ok, hst, h]
+    · subst hx
+      simp [Trans.ok, hst, hp rfl]
   refine inv_set s _ m g (g.stopped x leave) hI hg (stopStep_sigs s m g x leave hg) rfl ?_ ?_ ?_ rfl
-    (stopStep_nextCtx s m x leave) ?_
+    (stopStep_nextCtx s m x leave) ?_ htr
   rotate_left 3
   · intro c hc
     rw [stopStep_ctx] at hc
@@ -308,16 +393,23 @@ theorem inv_stop (s : St) (m : ModId) (g : Sig) (x : MState) (leave : Bool) (hI 
 
 /-- entering RUNNING from a non-RUNNING state, the context's counter follows -/
 theorem inv_start (s : St) (m : ModId) (g : Sig) (hI : Inv s) (hg : s.sigs[m]? = some g)
-    (hnr : g.state ≠ .running) (hin : g.inCtx = true) :
+    (hnr : g.state ≠ .running) (hin : g.inCtx = true) (hz : g.state ≠ .zombie) :
     Inv (setState (s.updCtxId (s.ctxIdOf m) (fun c => { c with running := c.running + 1 })) m .running) := by
   rw [ctxIdOf_eq s m g hg]
+  have htr : ∀ t ∈ (setState (s.updCtxId g.ctxId fun c => { c with running := c.running + 1 }) m .running).trans, t.ok = true := by
+    obtain ⟨md, hmd, hsg⟩ := mod_of_sig s m g hg
+    rw [setState_trans _ m .running md (by simpa using hmd)]
+    simp only [updCtxId_trans]
+    refine trans_ok_append hI.trans ?_
+    have hst : md.state = g.state := by rw [← hsg]; rfl
+    cases hmst : md.state <;> simp [Trans.ok, hmst] <;> (rw [hst] at hmst; first | exact absurd hmst hz | exact absurd hmst hnr)
   have hsig : (setState (s.updCtxId g.ctxId fun c => { c with running := c.running + 1 }) m .running).sigs
       = s.sigs.set m (g.setState .running) := by
     rw [setState_sigs]; simp [hg]
   refine inv_set s _ m g (g.setState .running) hI hg hsig rfl (fun _ => hin) (fun h => by simp [Sig.setState, hin] at h) ?_ rfl
     (by simp) (fun c hc => by
       simp only [setState_ctx] at hc
-      exact updCtxId_ctx_id s _ _ c hc (fun _ => rfl))
+      exact updCtxId_ctx_id s _ _ c hc (fun _ => rfl)) htr
   intro c hc
   simp only [setState_ctx] at hc
   rw [updCtxId_ctx] at hc
@@ -352,8 +444,13 @@ theorem inv_zombie (s : St) (m : ModId) (g : Sig) (hI : Inv s) (hg : s.sigs[m]? 
     Inv (setState s m .zombie) := by
   have hsig : (setState s m .zombie).sigs = s.sigs.set m (g.setState .zombie) := by
     rw [setState_sigs]; simp [hg]
+  have htr : ∀ t ∈ (setState s m .zombie).trans, t.ok = true := by
+    obtain ⟨md, hmd, _⟩ := mod_of_sig s m g hg
+    rw [setState_trans _ m .zombie md hmd]
+    refine trans_ok_append hI.trans ?_
+    cases hmst : md.state <;> simp [Trans.ok, hmst]
   refine inv_set s _ m g (g.setState .zombie) hI hg hsig rfl (fun h => h) (fun _ => Or.inr rfl) ?_ rfl
-    (by simp) (fun c hc => ⟨c, by simpa using hc, rfl⟩)
+    (by simp) (fun c hc => ⟨c, by simpa using hc, rfl⟩) htr
   intro c hc
   simp only [setState_ctx] at hc
   have h0 := hI.run c hc
@@ -385,13 +482,16 @@ theorem Mono_set (a s s' : St) (m : ModId) (g g' : Sig) (hM : Mono a s) (hg : s.
 @[simp] theorem updCtx_nextCtx (s : St) (f) : (s.updCtx f).nextCtx = s.nextCtx := by
   unfold St.updCtx; split <;> rfl
 
+@[simp] theorem updCtx_trans (s : St) (f) : (s.updCtx f).trans = s.trans := by
+  unfold St.updCtx; split <;> rfl
+
 theorem updCtx_ctx (s : St) (f) : (s.updCtx f).ctx = s.ctx.map f := by
   unfold St.updCtx; cases h : s.ctx <;> simp [h]
 
 /-- a context update that touches neither the identity nor the running counter -/
 theorem inv_updCtx (s : St) (f : Ctx → Ctx) (hid : ∀ c, (f c).id = c.id) (hrun : ∀ c, (f c).running = c.running)
     (hI : Inv s) : Inv (s.updCtx f) := by
-  refine ⟨fun c hc => ?_, by simpa using hI.out, by simpa using hI.names, ?_⟩
+  refine ⟨fun c hc => ?_, by simpa using hI.out, by simpa using hI.names, ?_, by rw [updCtx_trans]; exact hI.trans⟩
   · rw [updCtx_ctx] at hc
     cases hcx : s.ctx with
     | none => simp [hcx] at hc
@@ -408,7 +508,7 @@ theorem inv_updCtx (s : St) (f : Ctx → Ctx) (hid : ∀ c, (f c).id = c.id) (hr
 
 /-- releasing the context -/
 theorem inv_ctx_none (s : St) (d : List Ctx) (hI : Inv s) : Inv { s with ctx := none, deadCtx := d } :=
-  ⟨fun c hc => by simp at hc, hI.out, hI.names, hI.fresh.1, fun c hc => by simp at hc⟩
+  ⟨fun c hc => by simp at hc, hI.out, hI.names, ⟨hI.fresh.1, fun c hc => by simp at hc⟩, hI.trans⟩
 
 theorem runCount_fresh (l : List Sig) (id : Nat) (h : ∀ (m : Nat) (g : Sig), l[m]? = some g → g.ctxId < id) : runCount l id = 0 := by
   unfold runCount
@@ -423,7 +523,7 @@ theorem runCount_fresh (l : List Sig) (id : Nat) (h : ∀ (m : Nat) (g : Sig), l
 /-- a fresh context -/
 theorem inv_ctx_new (s : St) (c : Ctx) (hI : Inv s) (hid : c.id = s.nextCtx) (hr : c.running = 0) :
     Inv { s with ctx := some c, nextCtx := s.nextCtx + 1 } := by
-  refine ⟨fun c' hc => ?_, hI.out, hI.names, fun m g hg => Nat.lt_succ_of_lt (hI.fresh.1 m g hg), fun c' hc => ?_⟩
+  refine ⟨fun c' hc => ?_, hI.out, hI.names, ⟨fun m g hg => Nat.lt_succ_of_lt (hI.fresh.1 m g hg), fun c' hc => ?_⟩, hI.trans⟩
   · simp at hc; subst hc
     show c.running = runCount s.sigs c.id
     rw [hr, hid, runCount_fresh s.sigs s.nextCtx hI.fresh.1]
@@ -448,7 +548,7 @@ theorem inv_append (s : St) (md : Mod) (c : Ctx) (hI : Inv s) (hc : s.ctx = some
       · simp only [h1, h2, if_false]
         apply List.getElem?_eq_none
         simp; omega
-  refine ⟨fun c' hc' => ?_, ?_, ?_, ?_⟩
+  refine ⟨fun c' hc' => ?_, ?_, ?_, ?_, hI.trans⟩
   · rw [hs]
     have : c' = c := by
       have : s.ctx = some c' := hc'
